@@ -68,9 +68,10 @@ class SubstituteInterpretation(Interpretation):
             fresh_subs = tuple((k, v) for k, v in self.subs if k in expr.fresh)
             if fresh_subs:
                 expr = instrument.debug_logged(expr.eager_subs)(fresh_subs)
-            elif not isinstance(expr, get_origin(cls)):
-                # cls(*args) was rewritten to a term of another class, so names
-                # it introduces may no longer be fresh in the result.
+            else:
+                # The args are already substituted, so any remaining key was
+                # introduced by cls(*args) itself; if cls(*args) was rewritten
+                # to another term it may no longer be fresh in the result.
                 other_subs = tuple((k, v) for k, v in self.subs if k in expr.inputs)
                 if other_subs:
                     expr = Subs(expr, other_subs)
